@@ -412,7 +412,13 @@ class TaskShuffle(SimpleShuffle):
             if stage == (stages - 1) and npartitions == npartitions_input:
                 name = self._name
                 parts_out = self._partitions
-                _filter = parts_out if self._filtered else None
+                # ``shuffle_group`` labels the pieces of this stage by their
+                # split digit, not by the output partition number
+                _filter = (
+                    {inputs[part][stage] for part in parts_out}
+                    if self._filtered
+                    else None
+                )
             else:
                 name = f"stage-{stage}-{self._name}"
                 _filter = None
